@@ -117,3 +117,292 @@ def held_at_stores(ctx, f, points, lock_desc):
         ctx._ob(okk, ctx.sample('held', p.fn, p.line, '%s under lock %s' % (p.desc, lock_desc)))
         if not okk:
             ctx.violate('held|%s|%s|%s' % (p.fn.path, p.desc, lock_desc), 'HELD-LOCK violated: %s without a live guard of %s (live: %s)' % (p.desc, lock_desc, sorted(classes)), p.fn, p.line)
+
+
+# ------------------------------------------------------------------------------------ C01.R2
+def c01_r2_grow(ctx):
+    ctx.set_rule('C01.R2', 'TM::grow: resize -> sync_file -> layout published')
+    f = ctx.fn(TM + '::grow')
+    if f is None:
+        return
+    rs = ctx.sites(f, PCF + '::resize', exact=1)
+    sy = ctx.sites(f, PCF + '::sync_file', exact=1)
+    sl = ctx.sites(f, 'DatabaseHeader::set_layout', exact=1)
+    rz = ctx.sites(f, 'Allocators::resize_to', exact=1)
+    ctx.order(f, rs, sy, 'file resize before sync_file')
+    ctx.order(f, sy, sl + rz, 'sync_file before the new layout is published in memory')
+    ctx.guarded(f, sy, [ok(PCF + '::resize')], 'sync_file only after resize returned Ok')
+    ctx.guarded(f, sl + rz, [ok(PCF + '::sync_file')], 'layout published only after sync_file returned Ok')
+    # the length passed to resize is the new layout's
+    for p in rs:
+        ctx.flows(f, p, 1, from_call='DatabaseLayout::calculate', what='resize length derives from the newly calculated layout')
+    for p in sl:
+        ctx.flows(f, p, 1, from_call='DatabaseLayout::calculate', what='published layout is the newly calculated layout')
+    # PCF::flush = flush_write_buffer then sync_data
+    ctx.set_rule('C01.R2b', 'PCF::flush: write buffer drained before sync_data; sync_file syncs')
+    g = ctx.fn(PCF + '::flush')
+    if g is not None:
+        a = ctx.sites(g, PCF + '::flush_write_buffer', exact=1)
+        b = ctx.sites(g, CB + '::sync_data', exact=1)
+        ctx.order(g, a, b)
+        ctx.guarded(g, b, [ok(PCF + '::flush_write_buffer')], 'sync_data only after flush_write_buffer returned Ok')
+        ctx.must_pass(g, b, what='every success path of flush passes sync_data')
+    g = ctx.fn(PCF + '::sync_file')
+    if g is not None:
+        b = ctx.sites(g, CB + '::sync_data', exact=1)
+        ctx.must_pass(g, b, what='every success path of sync_file passes sync_data')
+    g = ctx.fn(PCF + '::flush_write_buffer')
+    if g is not None:
+        w = ctx.sites(g, CB + '::write', exact=1)
+        clr = ctx.sites(g, 'LRUWriteCache::clear', exact=1)
+        st = ctx.atomic_sites(g, 'store', 'committed_pages_buffered', exact=1, value=False)
+        ctx.after_success_from(g, w, CB + '::write', clr + st, 'a failed page write returns before the stripe is cleared / the flag reset')
+        # the flag is reset only after the loop over all stripes: no lock() reachable after it
+        lk = ctx.sites(g, 'Mutex::lock', exact=1)
+        if st and lk:
+            r = core.reach(g, start=(st[0].bb, st[0].idx))
+            ctx.check(lk[0].bb not in r['term'], 'order|%s|flag-after-drain' % g.path, 'committed_pages_buffered is cleared only after every stripe was drained (no stripe lock after it)', g, st[0].line)
+    g = ctx.fn(PCF + '::resize')
+    if g is not None:
+        sl_ = ctx.sites(g, CB + '::set_len', exact=1)
+        inv = ctx.sites(g, PCF + '::invalidate_read_cache_above', exact=1)
+        ctx.must_pass(g, sl_, what='every success path of resize passes set_len')
+        ctx.flows(g, sl_[0] if sl_ else None, 1, from_arg='len')
+
+
+# ------------------------------------------------------------------------------------ C01.R3
+def c01_r3_owners(ctx):
+    ctx.set_rule('C01.R3', 'who writes the header / syncs / resizes / commits (frozen tables)')
+    ctx.callers_eq(TM + '::write_header', {TM + '::commit', TM + '::begin_writable', TM + '::clear_recovery_required', TM + '::flush_shutdown_header'})
+    ctx.callers_eq(PCF + '::flush', {TM + '::commit', TM + '::begin_writable', TM + '::clear_recovery_required', TM + '::flush_shutdown_header', TM + '::new', TM + '::clear_cache_and_reload'})
+    ctx.callers_eq(PCF + '::sync_file', {TM + '::grow', TM + '::clear_cache_and_reload'})
+    ctx.callers_eq(PCF + '::resize', {TM + '::commit', TM + '::grow', TM + '::new'})
+    ctx.callers_eq(PCF + '::write', {TM + '::allocate_helper', TM + '::clear_cache_and_reload', TM + '::get_page_mut', TM + '::new', TM + '::write_header'})
+    ctx.callers_eq(TM + '::commit', {WT + '::durable_commit', 'Database::new', 'Database::check_integrity_inner'})
+    ctx.callers_eq(TM + '::non_durable_commit', {WT + '::non_durable_commit', WT + '::process_data_freed_pages_after_commit'})
+    ctx.callers_eq(TM + '::grow', {TM + '::allocate_helper'})
+    ctx.callers_eq(TM + '::try_shrink', {TM + '::commit'})
+    ctx.callers_eq('DatabaseHeader::set_layout', {TM + '::grow', TM + '::try_shrink', 'UnrepairedDatabaseHeader::finalize'})
+    # header writes (offset 0 of the file): PCF::write with constant offset 0
+    zero = set()
+    for path, sites in ctx.facts.callers_of(PCF + '::write').items():
+        for c in sites:
+            a = c.t['a'][1]
+            if a[0] == 'k' and a[2] == 0:
+                zero.add(path)
+    exp = {TM + '::write_header', TM + '::new', TM + '::clear_cache_and_reload'}
+    for p in sorted(zero):
+        okk = any(core.name_matches(e, core.alt_names(p)) for e in exp)
+        ctx.check(okk, 'new-header-writer|%s' % p, 'function `%s` writes file offset 0 (the database header); confirmed writers: %s' % (p, sorted(exp)))
+    ctx.check(len(zero) >= 3, 'floor|header-writers', 'at least the 3 confirmed header writers are found (found %d)' % len(zero))
+
+
+# ------------------------------------------------------------------------------------ C01.R4
+def c01_r4_non_durable(ctx):
+    ctx.set_rule('C01.R4', 'TM::non_durable_commit touches no storage; slot write and read_from_secondary under one state guard')
+    f = ctx.fn(TM + '::non_durable_commit')
+    if f is None:
+        return
+    ctx.no_reach([TM + '::non_durable_commit'], [CB + '::write', CB + '::write_best_effort', CB + '::set_len', CB + '::sync_data', 'StorageBackend::write', 'StorageBackend::set_len', 'StorageBackend::sync_data', PCF + '::flush', PCF + '::write'])
+    wb = ctx.sites(f, PCF + '::write_barrier', exact=1)
+    wss = ctx.sites(f, 'DatabaseHeader::write_secondary_slot', exact=1)
+    rfs = ctx.stores(f, 'read_from_secondary', owner='InMemoryState', value=True)
+    ctx.order(f, wb, wss, 'write_barrier before the secondary slot is rewritten')
+    ctx.order(f, wss, rfs, 'secondary slot written before read_from_secondary = true')
+    ctx.held(f, wss, 'self.state')
+    held_at_stores(ctx, f, rfs, 'self.state')
+    # one guard: no lock() of state between the two
+    locks = [p for p in ctx.sites(f, 'Mutex::lock', floor=2) if 'state' in core.lock_class_of_call(p.fn, p.bb)]
+    ctx.check(len(locks) == 1, 'one-guard|%s' % f.path, 'exactly one acquisition of self.state in non_durable_commit (slot and flag change together)', f, f.line)
+    ctx.guarded(f, wss, [ok(PCF + '::check_io_errors')], 'secondary slot only after check_io_errors returned Ok')
+    ctx.must_pass(f, rfs, start=wss[0] if wss else None, what='every success path after write_secondary_slot sets read_from_secondary')
+    ext = ctx.sites(f, 'UnpersistedState::extend', exact=1)
+    ctx.order(f, ext, wss, 'newly allocated pages recorded as unpersisted before the commit is published')
+    # write_barrier sets the flag behind write_buffer_bytes > 0
+    g = ctx.fn(PCF + '::write_barrier')
+    if g is not None:
+        st = ctx.atomic_sites(g, 'store', 'committed_pages_buffered', exact=1, value=True)
+        ctx.guarded_cmp(g, st, [Guard(place='self.write_buffer_bytes', cmp=True)], 'flag set only when the write buffer is non-empty')
+        ctx.no_reach([PCF + '::write_barrier'], [CB + '::write', CB + '::sync_data'])
+
+
+# ------------------------------------------------------------------------------------ C01.R6
+def c01_r6_checksums_final(ctx):
+    ctx.set_rule('C01.R6', 'roots handed to the commit slot are finalized roots')
+    f = ctx.fn(WT + '::durable_commit')
+    if f is not None:
+        cm = ctx.sites(f, TM + '::commit', exact=1)
+        fin = ctx.sites(f, 'TableTreeMut::finalize_dirty_checksums', exact=1)
+        ctx.order(f, fin, cm, 'system tree checksums finalized before TM::commit')
+        ctx.guarded(f, cm, [ok('TableTreeMut::finalize_dirty_checksums')], 'TM::commit only after finalize_dirty_checksums returned Ok')
+        for p in cm:
+            ctx.flows(f, p, 2, from_call='TableTreeMut::finalize_dirty_checksums', what='system_root argument of TM::commit derives from finalize_dirty_checksums')
+            ctx.flows(f, p, 1, from_arg='user_root', what='data root argument of TM::commit is the user_root parameter')
+            ctx.flows(f, p, 4, from_arg='self', what='two_phase argument comes from the transaction')
+    f = ctx.fn(WT + '::commit_inner_helper')
+    if f is not None:
+        fc = ctx.sites(f, 'TableTreeMut::flush_and_close', exact=1)
+        dc = ctx.sites(f, WT + '::durable_commit', exact=1)
+        nd = ctx.sites(f, WT + '::non_durable_commit', exact=1)
+        ctx.guarded(f, dc + nd, [ok('TableTreeMut::flush_and_close')], 'commit only after flush_and_close returned Ok')
+        for p in dc + nd:
+            ctx.flows(f, p, 1, from_call='TableTreeMut::flush_and_close', what='user_root derives from flush_and_close')
+    f = ctx.fn(WT + '::non_durable_commit')
+    if f is not None:
+        cm = ctx.sites(f, TM + '::non_durable_commit', exact=1)
+        ctx.guarded(f, cm, [ok('TableTreeMut::finalize_dirty_checksums')], 'TM::non_durable_commit only after finalize_dirty_checksums returned Ok')
+        for p in cm:
+            ctx.flows(f, p, 2, from_call='TableTreeMut::finalize_dirty_checksums')
+            ctx.flows(f, p, 1, from_arg='user_root')
+    f = ctx.fn(WT + '::process_data_freed_pages_after_commit')
+    if f is not None:
+        cm = ctx.sites(f, TM + '::non_durable_commit', exact=1)
+        ctx.guarded(f, cm, [ok('TableTreeMut::finalize_dirty_checksums')], 'epilogue publishes only after finalize_dirty_checksums returned Ok')
+        for p in cm:
+            ctx.flows(f, p, 2, from_call='TableTreeMut::finalize_dirty_checksums')
+            ctx.flows(f, p, 1, from_arg='user_root')
+
+
+# ------------------------------------------------------------------------------------ C01.R7
+def c01_r7_latch(ctx):
+    ctx.set_rule('C01.R7', 'irreversibility latch: allocator state discarded unless the commit completed')
+    f = ctx.fn(WT + '::commit_inner')
+    if f is not None:
+        arm = ctx.sites(f, 'AllocatorStateLatch::arm', exact=1)
+        h = ctx.sites(f, WT + '::commit_inner_helper', exact=1)
+        dis = ctx.sites(f, 'AllocatorStateLatch::disarm', exact=1)
+        ctx.order(f, arm, h, 'latch armed before commit_inner_helper')
+        ctx.guarded(f, dis, [ok(WT + '::commit_inner_helper')], 'disarm only if commit_inner_helper returned Ok')
+    g = ctx.fn('<AllocatorStateLatch as Drop>::drop')
+    if g is not None:
+        inv = ctx.sites(g, TM + '::invalidate_allocator_state', exact=1)
+        ctx.guarded(g, inv, [Guard(place='self.mem', vals={'Some'})], 'invalidate on the armed (Some) edge')
+        # every path with Some passes invalidate
+        e_none = core.guard_edges(g, [Guard(place='self.mem', vals={'None'})])
+        ctx.must_pass(g, inv, exits='any', extra_cut_edges=e_none, what='armed latch always invalidates the allocator state on drop')
+    d = ctx.fn('AllocatorStateLatch::disarm')
+    if d is not None:
+        st = ctx.stores(d, 'mem', owner='AllocatorStateLatch')
+    a = ctx.fn('AllocatorStateLatch::arm')
+    if a is not None:
+        # arm stores Some(mem)
+        aggs = [1 for b in a.blocks for st_ in b['s'] if st_[0] == 'a' and st_[2]['k'] == 'agg' and st_[2]['a'].endswith('Option') and st_[2]['v'] == 'Some']
+        ctx.check(len(aggs) >= 1, 'shape|arm-some', 'AllocatorStateLatch::arm stores Some(mem)', a, a.line)
+    ctx.callers_eq('AllocatorStateLatch::arm', {WT + '::commit_inner'})
+    ctx.callers_eq('AllocatorStateLatch::disarm', {WT + '::commit_inner'})
+    ctx.callers_eq(PA + '::adopt_unpersisted', {WT + '::commit_inner_helper'})
+    f = ctx.fn(WT + '::commit_inner_helper')
+    if f is not None:
+        ad = ctx.sites(f, PA + '::adopt_unpersisted', exact=1)
+        ctx.guarded(f, ad, [ok('TableTreeMut::flush_and_close')], 'adopt_unpersisted only after flush_and_close returned Ok')
+        ctx.guarded_cmp(f, ad, [Guard(place='self.durability', cmp=True)], 'adopt_unpersisted control-dependent on the durability test')
+    ctx.callers_eq(TM + '::invalidate_allocator_state', {'<AllocatorStateLatch as Drop>::drop', 'Database::check_integrity'})
+
+
+# ------------------------------------------------------------------------------------ C01.R8
+def c01_r8_open_recovery(ctx):
+    ctx.set_rule('C01.R8', 'open/recovery ordering')
+    f = ctx.fn(TM + '::new')
+    if f is not None:
+        tb = ctx.sites(f, 'DatabaseHeader::to_bytes', floor=3)
+        nomagic = [p for p in tb if p.call.t['a'][1][0] == 'k' and p.call.t['a'][1][2] is False]
+        magic = [p for p in tb if p.call.t['a'][1][0] == 'k' and p.call.t['a'][1][2] is True]
+        ctx.check(len(nomagic) == 1 and len(magic) >= 2, 'shape|to_bytes', 'one header serialisation without magic and >=2 with magic in TM::new', f, f.line)
+        if len(nomagic) == 1:
+            edges = core.guard_edges(f, [ok(PCF + '::flush')])
+            r = core.reach(f, start=(nomagic[0].bb, nomagic[0].idx), cut_edges=edges)
+            for m in magic:
+                hit = m.bb in r['term']
+                ctx._ob(not hit, ctx.sample('order', f, m.line, 'magic header only after the magic-less header was flushed (Ok)'))
+                if hit:
+                    ctx.violate('order|%s|flush-before-magic' % f.path, 'header with magic number serialised without a successful flush of the magic-less header', f, m.line)
+            # and every success path from it passes flush
+            ctx.must_pass(f, ctx.sites(f, PCF + '::flush', floor=3), start=nomagic[0], what='every success path after initialising the header passes flush')
+        # PCF::new precedes every fallible storage op: C20.R3 checks that
+    f = ctx.fn('Database::new')
+    if f is not None:
+        bw = ctx.sites(f, TM + '::begin_writable', exact=1)
+        ctx.guarded(f, bw, [ok(TM + '::load_allocator_state'), ok(TM + '::commit')], 'begin_writable only after load_allocator_state or the repair commit returned Ok')
+        cm = ctx.sites(f, TM + '::commit', exact=1)
+        ctx.guarded(f, cm, [ok('Database::do_repair')], 'repair commit only after do_repair returned Ok')
+        la = ctx.sites(f, TM + '::load_allocator_state', exact=1)
+        ctx.guarded(f, la, [Guard(call='Database::get_allocator_state_table', vals={'Some'})], 'load_allocator_state only on the Some edge of get_allocator_state_table')
+        for p in cm:
+            ctx.flows(f, p, 1, from_call='Database::do_repair')
+            ctx.flows(f, p, 2, from_call='Database::do_repair')
+            ctx.flows(f, p, 3, from_call=TM + '::get_last_committed_transaction_id')
+            ctx.const_arg(f, p, 4, True, 'repair commit uses two-phase commit')
+    f = ctx.fn('Database::do_repair')
+    if f is not None:
+        crr = ctx.sites(f, TM + '::clear_recovery_required', exact=1)
+        ctx.guarded(f, crr, [Guard(call='Database::primary_verifies', vals={'true'})], 'clear_recovery_required only after a primary slot verified')
+        rb = ctx.sites(f, 'Database::rebuild_allocator_state', exact=1)
+        ctx.guarded(f, rb, [Guard(call='Database::primary_verifies', vals={'true'})], 'allocator rebuilt only from a verified primary')
+        ctx.guarded(f, crr, [ok('Database::rebuild_allocator_state')], 'clear_recovery_required only after the rebuild returned Ok')
+        rpc = ctx.sites(f, TM + '::repair_primary_corrupted', exact=1)
+        ctx.guarded(f, rpc, [Guard(call='Database::primary_verifies', vals={'false'})], 'slot swap only when the primary failed verification')
+        ctx.guarded(f, rpc, [Guard(call=TM + '::used_two_phase_commit', vals={'false'})], 'no fallback to the secondary after a two-phase commit')
+    f = ctx.fn(TM + '::begin_writable')
+    if f is not None:
+        st = ctx.stores(f, 'recovery_required', owner='DatabaseHeader', value=True)
+        wh = ctx.sites(f, TM + '::write_header', exact=1)
+        fl = ctx.sites(f, PCF + '::flush', exact=1)
+        ctx.order(f, st, wh)
+        ctx.order(f, wh, fl)
+        ctx.must_pass(f, fl, what='begin_writable flushes the recovery_required header on every success path')
+    f = ctx.fn(TM + '::clear_recovery_required')
+    if f is not None:
+        st = ctx.stores(f, 'recovery_required', owner='DatabaseHeader', value=False)
+        wh = ctx.sites(f, TM + '::write_header', exact=1)
+        fl = ctx.sites(f, PCF + '::flush', exact=1)
+        ctx.order(f, st, wh)
+        ctx.order(f, wh, fl)
+        ctx.must_pass(f, fl, what='clear_recovery_required flushes on every success path')
+    ctx.callers_eq(TM + '::clear_recovery_required', {'Database::do_repair'})
+    ctx.callers_eq(TM + '::begin_writable', {'Database::new', 'Database::check_integrity_inner'})
+    ctx.callers_eq(TM + '::repair_primary_corrupted', {'Database::do_repair'})
+
+
+# ------------------------------------------------------------------------------------ C01.R9
+def c01_r9_clean_close(ctx):
+    ctx.set_rule('C01.R9', 'clean close only records a clean shutdown for a consistent, failure-free state')
+    f = ctx.fn(TM + '::flush_shutdown_header')
+    if f is not None:
+        st = ctx.stores(f, 'recovery_required', owner='DatabaseHeader', value=False)
+        wh = ctx.sites(f, TM + '::write_header', exact=1)
+        tg = st + wh
+        ctx.guarded(f, tg, [ok(PCF + '::check_io_errors')], 'shutdown header only if no I/O failure is latched')
+        ctx.guarded(f, tg, [false_of('panicking')], 'shutdown header not while panicking')
+        ctx.guarded(f, tg, [Guard(place='allocators', vals={'Some'})], 'shutdown header only with an allocator state')
+        ctx.guarded(f, tg, [false_of(TM + '::needs_repair')], 'shutdown header not when repair is needed')
+        ctx.guarded(f, tg, [ok(PCF + '::flush')], 'shutdown header only after a successful flush of the data')
+        fl = ctx.sites(f, PCF + '::flush', exact=2)
+        ctx.must_pass(f, fl, start=wh[0] if wh else None, what='the shutdown header is flushed')
+    ctx.callers_eq(TM + '::flush_shutdown_header', {TM + '::close'})
+    f = ctx.fn('close_database')
+    if f is not None:
+        en = ctx.sites(f, 'ensure_allocator_state_table_and_trim', exact=1)
+        ctx.guarded(f, en, [false_of('panicking')], 'no final quick-repair commit while panicking')
+        ctx.guarded(f, en, [false_of(TM + '::needs_repair')], 'no allocator snapshot of a state that needs repair')
+        cl = ctx.sites(f, TM + '::close', exact=1)
+        ctx.must_pass(f, cl, exits='any', what='close_database always closes the memory')
+    f = ctx.fn('ensure_allocator_state_table_and_trim')
+    if f is not None:
+        qr = ctx.sites(f, WT + '::set_quick_repair', exact=1)
+        cm = ctx.sites(f, WT + '::commit', exact=1)
+        for p in qr:
+            ctx.const_arg(f, p, 1, True)
+        ctx.order(f, qr, cm, 'quick repair enabled before the final commit')
+        ctx.must_pass(f, cm, what='the closing transaction is committed')
+    ctx.callers_eq('ensure_allocator_state_table_and_trim', {'close_database'})
+    ctx.callers_eq('close_database', {'<Database as Drop>::drop', '<TransactionGuard as Drop>::drop'})
+    # quick repair implies two-phase commit
+    f = ctx.fn(WT + '::commit_inner_helper')
+    if f is not None:
+        st = ctx.stores(f, 'two_phase_commit', owner='WriteTransaction', value=True)
+        ctx.guarded(f, st, [Guard(place='self.quick_repair', vals={'true'})], 'quick_repair forces two_phase_commit')
+        e_false = core.guard_edges(f, [Guard(place='self.quick_repair', vals={'false'})])
+        fc = ctx.sites(f, 'TableTreeMut::flush_and_close', exact=1)
+        if st and fc:
+            r = core.reach(f, cut_edges=e_false, cut_points={(st[0].bb, st[0].idx)})
+            ctx.check(fc[0].bb not in r['term'], 'must-pass|%s|quick-repair-2pc' % f.path, 'with quick_repair set, two_phase_commit = true is stored before anything else happens', f, st[0].line)
